@@ -63,8 +63,22 @@ Example C06_ex :
 Proof.
   cbv zeta. split; [|vm_compute; reflexivity].
   unfold wf_slice. cbv zeta.
-  repeat match goal with |- _ /\ _ => apply conj end; try (vm_compute; (reflexivity || discriminate || (intros; discriminate))).
-  all: try (cbn; unfold u32v, s32v; lia).
-  all: try (eexists; split; [reflexivity|]).
-  all: try (vm_compute; (reflexivity || discriminate)).
+  repeat match goal with |- _ /\ _ => apply conj end;
+    cbn -[N.lt N.le Z.le Z.lt N.pow]; try reflexivity; try discriminate; try (unfold u32v; lia).
+  - exists 33. split; [reflexivity|]. change (2 ^ (2 + 4)) with 64. lia.
+  - exists 1. split; [reflexivity|unfold u32v; lia].
+  - repeat constructor; cbn [mod_val]; unfold u32v; lia.
+  - split; [reflexivity|]. eexists. split; [reflexivity|].
+    unfold wf_pwt, wf_pw, u32v, s32v. cbn -[N.lt N.le Z.le Z.lt].
+    repeat match goal with |- _ /\ _ => apply conj end; try lia; try reflexivity.
+    + exists 4. split; [reflexivity|lia].
+    + constructor; [right; exists (mk_pw 1 1), (mk_pw (-2) 0); cbn -[Z.le]; repeat split; lia|].
+      constructor; [left; reflexivity|constructor].
+    + repeat constructor; cbn -[Z.le]; lia.
+  - change (nal_ref_idc 65 =? 0) with false. cbv iota. eexists. split; [reflexivity|].
+    cbn [wf_drm]. split; [discriminate|]. repeat constructor; cbn [wf_mmco]; unfold u32v; lia.
+  - exists 2. split; [reflexivity|unfold u32v; lia].
+  - exists true. reflexivity.
+  - exists 30. split; [reflexivity|lia].
+  - split; [lia|]. intros _. unfold s32v. cbn [fst snd]. lia.
 Qed.
